@@ -360,11 +360,41 @@ func (e *Engine) witnessHints(st *State) []smt.T {
 			}
 		}
 	}
+	// appended-to sequences: the position of the appended element
+	var out []smt.T
+	seenApp := map[string]bool{}
+	for _, v := range vs {
+		txt := st.vars[v].S
+		for i := 0; i+7 <= len(txt); i++ {
+			if !strings.HasPrefix(txt[i:], "(s_app ") {
+				continue
+			}
+			depth, j := 0, i
+			for ; j < len(txt); j++ {
+				if txt[j] == '(' {
+					depth++
+				} else if txt[j] == ')' {
+					depth--
+					if depth == 0 {
+						break
+					}
+				}
+			}
+			if j >= len(txt) {
+				break
+			}
+			if as := smt.SplitArgs(txt[i : j+1]); len(as) == 2 && !seenApp[as[0]] && len(seenApp) < 6 {
+				seenApp[as[0]] = true
+				s0 := smt.T{S: as[0], Sort: smt.V}
+				e.Decls.Fun("hint!v", []smt.Sort{smt.V}, smt.Bool)
+				out = append(out, smt.App(smt.Bool, "hint!v", smt.App(smt.V, "s_at", s0, smt.App(smt.Int, "s_len", s0))))
+			}
+		}
+	}
 	if len(slices) == 0 || len(ints) == 0 || len(slices)*len(ints) > 40 {
-		return nil
+		return out
 	}
 	e.Decls.Fun("hint!v", []smt.Sort{smt.V}, smt.Bool)
-	var out []smt.T
 	for _, s := range slices {
 		for _, n := range ints {
 			out = append(out, smt.App(smt.Bool, "hint!v", smt.App(smt.V, "s_at", s, n)))
